@@ -164,7 +164,7 @@ func init() {
 	// ---------------- C10 ----------------
 	harness.Register(&harness.Check{
 		ID: "C10", Level: "exploration",
-		Rule:        "all environments of <= 2 (quick) / <= 3 (thorough) type definitions over names A,B(,C) (plus, in both tiers, all 9261 alias/recursion/mode graphs over three names with bodies 1, lin 1, aff 1, X, +{l:X}, +{l:+{l:X}}, X * Y 13182 mode-propagation graphs over four names - three definitions from lin 1, +{l:X}, +{l:X,r:Y} plus a later alias or 1 * X - and all 32 shift forms under every annotation) with bodies = every type of depth <= 1 (depth <= 2 for single definitions) over 1, *, -*, +{l},+{l,r},&{..}, legal and illegal shifts, duplicated labels, each with every head annotation (none, 4 modes, an unknown mode), plus duplicated definitions; each is turned into a program (definitions + one identity function per name) and also used as annotation type of a parameter/result, of an assumed name + process, and of a typed cut; verdict of the real typechecker must equal the independent well-formedness checker R-wf; distinct_nontrivial counts distinct program texts with at least one type constructor",
+		Rule:        "all environments of <= 2 (quick) / <= 3 (thorough) type definitions over names A,B(,C) (plus, in both tiers, all 9261 alias/recursion/mode graphs over three names with bodies 1, lin 1, aff 1, X, +{l:X}, +{l:+{l:X}}, X * Y 13182 mode-propagation graphs over four names - three definitions from lin 1, +{l:X}, +{l:X,r:Y} plus a later alias or 1 * X - and all 32 shift forms under every annotation) with bodies = every type of depth <= 1 (depth <= 2 for single definitions) over 1, *, -*, +{l},+{l,r},&{..}, legal and illegal shifts, duplicated labels, each with every head annotation (none, 4 modes, an unknown mode), plus duplicated definitions; each is turned into a program (definitions + one identity function per name) and also used as annotation type of a parameter/result, of an assumed name + process, and of a typed cut, alone and next to (before / after) a declaration annotated with each well-formed sibling (same structure, other head mode); verdict of the real typechecker must equal the independent well-formedness checker R-wf; distinct_nontrivial counts distinct program texts with at least one type constructor",
 		Assumptions: []string{"R-wf (ref/types.go) is the reading of 'well-formed' used: single definition, defined names, distinct labels, no cycle of bare-name definitions, known modes, modes uniform up to shifts, legal shifts, directional mode inference (DESIGN 4.6)"},
 		Cases:       func(c *harness.Ctx) int { return chunks(wfSpace(c).total) + len(annEnvs())*len(annPool(c)) },
 		Run: func(c *harness.Ctx, idx int, r *harness.Rec) {
@@ -388,6 +388,47 @@ func checkC10Annotation(e0 *ref.Env, a0 ref.AnnTy, r *harness.Rec) {
 			}
 		} else if res.TypeErr != "" && werr == "" {
 			viol(r, "well-formed annotation rejected ("+pos+"): "+NormMsg(stripNames(res.TypeErr)), "rejected although well-formed: "+res.TypeErr, text, nil)
+		}
+	}
+	// an annotation must be judged on its own: a declaration carrying a *sibling* of the annotation (same
+	// structure, another or no head mode) placed before or after it must not change the verdict
+	var sibs []ref.AnnTy
+	for _, m := range []ref.Mode{ref.MUnset, ref.MRep, ref.MMul, ref.MAff, ref.MLin} {
+		sb := ref.AnnTy{Ann: m, T: a0.T.Copy()}
+		if sb.String() != ts && e.CheckType(sb, dm) == "" {
+			sibs = append(sibs, sb)
+		}
+	}
+	for _, sb := range sibs {
+		ss := sb.String()
+		for oi, text := range []string{
+			e.String() + fmt.Sprintf("let g0(x : %s) : %s = fwd self x\nlet g(x : %s) : %s = fwd self x\n", ss, ss, ts, ts),
+			e.String() + fmt.Sprintf("let g(x : %s) : %s = fwd self x\nlet g0(x : %s) : %s = fwd self x\n", ts, ts, ss, ss),
+			e.String() + fmt.Sprintf("let g(x : %s, y : %s) : 1 = drop x; drop y; close self\n", ss, ts),
+		} {
+			if oi == 2 && (werr == "" || sb.Ann != ref.MRep) {
+				continue // the two-parameter form drops both: decided only for a replicable sibling and an ill-formed annotation
+			}
+			res := TypecheckText(text, nil, nil)
+			r.Add("evaluations", 1)
+			if res.ParseErr != "" {
+				viol(r, "generated text does not parse", res.ParseErr, text, nil)
+				continue
+			}
+			if len(res.Panics) > 0 || res.Blocked {
+				viol(r, "crash: "+NormMsg(strings.Join(res.Panics, ";")), "typechecker crashed or gave no answer: "+strings.Join(res.Panics, "; "), text, nil)
+				continue
+			}
+			if res.TypeErr == "" && werr != "" {
+				b := dropAnnBeforeShift(a)
+				if (b.Ann != a.Ann || b.AnnStr != a.AnnStr) && e.CheckType(b, dm) == "" {
+					viol(r, "annotation-before-shift-ignored", "accepted although the head annotation contradicts (or is not a mode and precedes) a shift: "+string(werr), text, nil)
+				} else {
+					viol(r, "ill-formed annotation accepted (next to a well-formed sibling): "+wfClass(werr), "accepted although the annotation type "+ts+" is ill-formed: "+string(werr), text, nil)
+				}
+			} else if res.TypeErr != "" && werr == "" {
+				viol(r, "well-formed annotation rejected (next to a well-formed sibling): "+NormMsg(stripNames(res.TypeErr)), "rejected although both annotations are well-formed: "+res.TypeErr, text, nil)
+			}
 		}
 	}
 	if werr == "" {
